@@ -225,6 +225,39 @@ impl CodecStream {
         out
     }
 
+    /// `deep QueryCondition <depth>`: recursion depth of a recursive derived deserializer is bounded
+    /// only by the input; run it in a child process because a stack overflow aborts.
+    fn op_deep(&mut self, depth: &str, ctx: &mut Ctx) -> String {
+        let Ok(d) = depth.parse::<usize>() else { return bad(ctx) };
+        if d > 4_000_000 || (depth.len() > 1 && depth.starts_with('0')) {
+            return bad(ctx);
+        }
+        let exe = match std::env::current_exe() {
+            Ok(e) => e,
+            Err(_) => return bad(ctx),
+        };
+        let out = std::process::Command::new(exe)
+            .arg("deep-child")
+            .arg(depth)
+            .stderr(std::process::Stdio::null())
+            .output();
+        let line = match out {
+            Ok(o) if o.status.success() => String::from_utf8_lossy(&o.stdout).trim().to_string(),
+            Ok(_) => "abort:stack-overflow".to_string(),
+            Err(_) => return bad(ctx),
+        };
+        ctx.bump(&format!("outcome:{}", line.split(':').next().unwrap_or("?")));
+        if self.prop == Prop::C21 && !(line == "ok" || line.starts_with("err:")) {
+            ctx.violation(
+                "C21/abort/derive::deserialize-recursion",
+                "deserialize of arbitrary bytes must return Ok or Err (no panic, no abort)",
+                "ok | err:*",
+                &format!("{line} (QueryCondition nested {d} levels: one stack frame per level, no depth limit)"),
+            );
+        }
+        line
+    }
+
     fn op_tovec(&mut self, line: &str, kind: &str, hx: &str, ctx: &mut Ctx) -> String {
         let Some(bytes) = unhex(hx) else { return bad(ctx) };
         let n = bytes.len();
@@ -591,6 +624,10 @@ impl Stream for CodecStream {
             ("tovec", 3) => {
                 ctx.bump("op:tovec");
                 self.op_tovec(line, t[1], t[2], ctx)
+            }
+            ("deep", 3) if t[1] == "QueryCondition" => {
+                ctx.bump("op:deep");
+                self.op_deep(t[2], ctx)
             }
             _ => {
                 ctx.bump("op:unknown");
